@@ -82,8 +82,10 @@ func (t *AppendOnlyTree) AddLeaf(tx dbtypes.Txer, blockNum, blockPosition uint64
 	}
 	t.lastIndex++
 	tx.AddRollbackCallback(func() {
-		log.Debugf("decreasing index due to rollback")
-		t.lastIndex--
+		// The rolled back leaf has also overwritten entries of lastLeftCache, so decreasing
+		// the index is not enough: invalidate the cache, it gets rebuilt from the DB by the next AddLeaf.
+		log.Debugf("invalidating the append only tree cache due to rollback")
+		t.lastIndex = -2
 	})
 	return nil
 }
